@@ -19,6 +19,10 @@ they generate.  Pure numpy, NO quantarhei import.
 
 3. Four-index tensor of a linear map M on N x N matrices:  T[a,b,c,d] = (M E_cd)[a,b].
 
+5. (below) probe operators defining the 'other' bases (real symmetric / complex Hermitian) and
+   the rotating frame of a Hamiltonian with blocks of states: Omega = block averages of the
+   diagonal, generator H - diag(Omega), rho_lab[a,b](t) = exp(-i(Omega_a-Omega_b)t) rho_rot[a,b](t).
+
 4. Short-exponential propagation (what the package documents as "short-exp-L"):
 
        rho_{n+1} = sum_{l=0..L} (Liou dt)^l / l!  rho_n ,    Liou rho = -i [H, rho] + R rho
@@ -137,3 +141,59 @@ def probe_operator(N):
     X = 0.5 * (X + X.T)
     X = X + numpy.diag(1.3 * numpy.arange(N) - 0.4)
     return X
+
+
+def probe_operator_complex(N):
+    """A fixed complex Hermitian matrix with a simple spectrum, no zero off-diagonal entry and
+    imaginary parts of the size of the real ones: its eigenvector matrix S is a complex unitary
+    matrix that is NOT a real orthogonal matrix times column phases (S^T S is not diagonal), so
+    that S^T != S^-1 and S^+ != S^T (defines the 'complex' basis)."""
+    X = probe_operator(N).astype(complex)
+    for i in range(N):
+        for j in range(i + 1, N):
+            a = 0.55 * numpy.sin(1.3 + 2.1 * (i + 1) + 0.8 * (j + 1)) + 0.3
+            X[i, j] += 1.0j * a
+            X[j, i] -= 1.0j * a
+    return X
+
+
+def complexity_of_eigenbasis(X):
+    """max |off-diagonal element of S^T S| for the eigenvector matrix S of the Hermitian X: zero
+    iff S is a real orthogonal matrix up to a phase of every column."""
+    _, S = numpy.linalg.eigh(numpy.asarray(X, dtype=complex))
+    G = S.T @ S
+    return float(numpy.max(numpy.abs(G - numpy.diag(numpy.diag(G)))))
+
+
+# ---------------------------------------------------------------------------
+# rotating frame ("RWA") of a Hamiltonian with blocks of states
+# ---------------------------------------------------------------------------
+def rwa_frequencies(H, blocks):
+    """Frame frequency of every state: the average of the diagonal elements of H (site basis)
+    over the block the state belongs to; `blocks` = first index of every block (first one 0)."""
+    H = numpy.asarray(H)
+    N = H.shape[0]
+    blocks = [int(b) for b in blocks]
+    if blocks[0] != 0 or sorted(set(blocks)) != blocks or blocks[-1] >= N:
+        raise ValueError("blocks must start with 0 and ascend inside the matrix")
+    om = numpy.zeros(N)
+    for k, lo in enumerate(blocks):
+        hi = blocks[k + 1] if k + 1 < len(blocks) else N
+        om[lo:hi] = float(numpy.mean(numpy.real(numpy.diag(H))[lo:hi]))
+    return om
+
+
+def rwa_hamiltonian(H, omega):
+    """generator of the rotating frame: H - diag(omega)"""
+    return numpy.asarray(H, dtype=complex) - numpy.diag(numpy.asarray(omega, dtype=float))
+
+
+def rwa_to_lab(rho_t, omega, times):
+    """rho_lab(t)[a,b] = exp(-i (omega_a - omega_b) t) rho_rot(t)[a,b] at the stored times"""
+    rho_t = numpy.asarray(rho_t, dtype=complex)
+    omega = numpy.asarray(omega, dtype=float)
+    out = numpy.zeros(rho_t.shape, dtype=complex)
+    for k, t in enumerate(numpy.asarray(times, dtype=float)):
+        u = numpy.exp(-1.0j * omega * t)
+        out[k] = (u[:, None] * rho_t[k]) * numpy.conj(u)[None, :]
+    return out
